@@ -43,11 +43,20 @@ def main():
     src = "/tmp/seed_%s/SEED" % sid
     dst = os.path.join(V, "seeded", sid)
     os.makedirs(dst, exist_ok=True)
+    old = {}
+    if os.path.exists(os.path.join(dst, "meta.json")):
+        try:
+            old = json.load(open(os.path.join(dst, "meta.json")))
+        except Exception:  # noqa
+            old = {}
     if os.path.isdir(src):
         for f in os.listdir(src):
             if os.path.isfile(os.path.join(src, f)):
                 shutil.copy(os.path.join(src, f), os.path.join(dst, f))
     meta = json.load(open(os.path.join(dst, "meta.json")))
+    for k in ("verification", "verification_history", "first_evaluation"):      # keep the record of earlier evaluations
+        if k in old and k not in meta:
+            meta[k] = old[k]
     wt = "/tmp/seedchk_%s" % sid
     sh("git -C /repo worktree remove --force %s" % wt)
     r = sh("git -C /repo worktree add -q %s HEAD" % wt)
@@ -89,6 +98,8 @@ def main():
         runs.append({"checks": meta["verification"].get("checks"), "repo_head": meta["verification"].get("repo_head")})
     meta["verification_history"] = runs[-4:]
     meta["verification"] = res
+    if "first_evaluation" not in meta:
+        meta["first_evaluation"] = {"checks": (runs[0].get("checks") if runs else res.get("checks")), "repo_head": res.get("repo_head")}
     json.dump(meta, open(os.path.join(dst, "meta.json"), "w"), indent=1)
     print(json.dumps(res, indent=1)[:3000])
 
